@@ -129,7 +129,7 @@ class MonitoredContainer(Generic[T], ABC):
         :param add_relation_to_the_graph: Whether to add the relation to the graph or not
         :return: Whether the value was added or not
         """
-        if value in self:
+        if self._holds(value):
             return False
         self._add_item(
             value,
@@ -139,6 +139,17 @@ class MonitoredContainer(Generic[T], ABC):
         if not any(item is value for item in self._inferred_items):
             self._inferred_items.append(value)
         return True
+
+    def _holds(self, value: Symbol) -> bool:
+        """
+        Whether this very instance is in the container. The test is by identity, like the symbol graph identifies
+        instances: ``value in self`` compares by value, and a value comparison (e.g. a dataclass-generated ``__eq__``)
+        reads every field of both instances - also of an instance whose ``__init__`` is still running and has not
+        assigned its later fields yet (inference started by an earlier field of the same constructor call).
+
+        :param value: The instance to look for
+        """
+        return any(item is value for item in self)
 
     @abstractmethod
     def _remove_item(self, item):
@@ -262,6 +273,10 @@ class MonitoredSet(MonitoredContainer, set):
             add_relation_to_the_graph=add_relation_to_the_graph,
         )
         super().add(value)
+
+    def _holds(self, value) -> bool:
+        # a set finds an element by its hash (as ``set.add`` does anyway): no scan
+        return value in self
 
     def _remove_item(self, item):
         self.remove(item)
